@@ -54,3 +54,39 @@ package generic
 //@   ensures {C01} written: result1 == nil ==> has($srv.store[dbof(params.Context)], gkey(params)) && $srv.store[dbof(params.Context)][gkey(params)].Value == internal.adapt(garg(params, 2))
 //@   ensures {C01,C20} otherkeys: forall k string :: k != gkey(params) && has($srv.store[dbof(params.Context)], k) ==> old(has($srv.store[dbof(params.Context)], k)) && $srv.store[dbof(params.Context)][k].Value == old($srv.store[dbof(params.Context)][k].Value)
 //@   ensures {C20} otherdbs: forall d int :: d != dbof(params.Context) ==> $srv.store[d] == old($srv.store[d])
+
+// ---- EXPIRE / PEXPIRE key n [NX|XX|GT|LT] and EXPIREAT / PEXPIREAT key t [NX|XX|GT|LT]
+// The new deadline; whether the option lets it replace the current one (zerotime = no deadline).
+//@ spec gexpire_new(params internal.HandlerFuncParams) Time = lower(garg(params, 0)) == "pexpire" ? $now + atoi(garg(params, 2)) * 1000000 : $now + atoi(garg(params, 2)) * 1000000000
+//@ spec gapplies(opt string, cur Time, new Time) bool = lower(opt) == "nx" ? cur == zerotime : (lower(opt) == "xx" ? cur != zerotime : (lower(opt) == "gt" ? cur != zerotime && !(new < cur) : !(cur != zerotime && cur < new)))
+//@ spec gknownopt(opt string) bool = lower(opt) == "nx" || lower(opt) == "xx" || lower(opt) == "gt" || lower(opt) == "lt"
+//@ spec gcur(params internal.HandlerFuncParams) Time = old(gdeadline(params, gkey(params)))
+//@ spec gothers(params internal.HandlerFuncParams) bool = forall k string :: k != gkey(params) ==> (has($srv.store[dbof(params.Context)], k) <==> old(has($srv.store[dbof(params.Context)], k))) && $srv.store[dbof(params.Context)][k] == old($srv.store[dbof(params.Context)][k])
+
+//@ func handleExpire props C04,C12
+//@   requires henv(params)
+//@   assumes own-cmd: len(params.Command) >= 2 ==> disjointarr(params.Command, $srv.keysWithExpiry.keys[dbof(params.Context)])
+//@   ensures {C04} arity: len(params.Command) < 3 || len(params.Command) > 4 ==> result1 != nil
+//@   ensures {C04} badtime: (len(params.Command) == 3 || len(params.Command) == 4) && !atoiok(garg(params, 2)) ==> result1 != nil
+//@   ensures {C04} missing: (len(params.Command) == 3 || len(params.Command) == 4) && atoiok(garg(params, 2)) && !old(glive(params, gkey(params))) ==> result1 == nil && bstr(result0) == ":0\r\n" && gpure(params)
+//@   ensures {C04} plain: len(params.Command) == 3 && atoiok(garg(params, 2)) && old(glive(params, gkey(params))) ==> result1 == nil && bstr(result0) == ":1\r\n" && gdeadline(params, gkey(params)) == gexpire_new(params)
+//@   ensures {C04} badoption: len(params.Command) == 4 && atoiok(garg(params, 2)) && old(glive(params, gkey(params))) && !gknownopt(garg(params, 3)) ==> result1 != nil
+//@   ensures {C04} applied: len(params.Command) == 4 && atoiok(garg(params, 2)) && old(glive(params, gkey(params))) && gknownopt(garg(params, 3)) && gapplies(garg(params, 3), gcur(params), gexpire_new(params)) ==> result1 == nil && bstr(result0) == ":1\r\n" && gdeadline(params, gkey(params)) == gexpire_new(params)
+//@   ensures {C04} refused: len(params.Command) == 4 && atoiok(garg(params, 2)) && old(glive(params, gkey(params))) && gknownopt(garg(params, 3)) && !gapplies(garg(params, 3), gcur(params), gexpire_new(params)) ==> result1 == nil && bstr(result0) == ":0\r\n" && gdeadline(params, gkey(params)) == gcur(params)
+//@   ensures {C04,C01} value: (has($srv.store[dbof(params.Context)], gkey(params)) <==> old(has($srv.store[dbof(params.Context)], gkey(params)))) && $srv.store[dbof(params.Context)][gkey(params)].Value == old($srv.store[dbof(params.Context)][gkey(params)].Value)
+//@   ensures {C04,C20} others: gothers(params)
+
+//@ spec gexpireat_new(params internal.HandlerFuncParams) Time = lower(garg(params, 0)) == "pexpireat" ? timeunixmilli(atoi(garg(params, 2))) : timeunix(atoi(garg(params, 2)))
+
+//@ func handleExpireAt props C04,C12
+//@   requires henv(params)
+//@   assumes own-cmd: len(params.Command) >= 2 ==> disjointarr(params.Command, $srv.keysWithExpiry.keys[dbof(params.Context)])
+//@   ensures {C04} arity: len(params.Command) < 3 || len(params.Command) > 4 ==> result1 != nil
+//@   ensures {C04} badtime: (len(params.Command) == 3 || len(params.Command) == 4) && !atoiok(garg(params, 2)) ==> result1 != nil
+//@   ensures {C04} missing: (len(params.Command) == 3 || len(params.Command) == 4) && atoiok(garg(params, 2)) && !old(glive(params, gkey(params))) ==> result1 == nil && bstr(result0) == ":0\r\n" && gpure(params)
+//@   ensures {C04} plain: len(params.Command) == 3 && atoiok(garg(params, 2)) && old(glive(params, gkey(params))) ==> result1 == nil && bstr(result0) == ":1\r\n" && gdeadline(params, gkey(params)) == gexpireat_new(params)
+//@   ensures {C04} badoption: len(params.Command) == 4 && atoiok(garg(params, 2)) && old(glive(params, gkey(params))) && !gknownopt(garg(params, 3)) ==> result1 != nil
+//@   ensures {C04} applied: len(params.Command) == 4 && atoiok(garg(params, 2)) && old(glive(params, gkey(params))) && gknownopt(garg(params, 3)) && gapplies(garg(params, 3), gcur(params), gexpireat_new(params)) ==> result1 == nil && bstr(result0) == ":1\r\n" && gdeadline(params, gkey(params)) == gexpireat_new(params)
+//@   ensures {C04} refused: len(params.Command) == 4 && atoiok(garg(params, 2)) && old(glive(params, gkey(params))) && gknownopt(garg(params, 3)) && !gapplies(garg(params, 3), gcur(params), gexpireat_new(params)) ==> result1 == nil && bstr(result0) == ":0\r\n" && gdeadline(params, gkey(params)) == gcur(params)
+//@   ensures {C04,C01} value: (has($srv.store[dbof(params.Context)], gkey(params)) <==> old(has($srv.store[dbof(params.Context)], gkey(params)))) && $srv.store[dbof(params.Context)][gkey(params)].Value == old($srv.store[dbof(params.Context)][gkey(params)].Value)
+//@   ensures {C04,C20} others: gothers(params)
